@@ -148,16 +148,75 @@ async fn run_async(run: usize, shards: usize, gen: &mut Gen, len: usize, two_key
         *clock.0.lock().unwrap() = 1000 + now;
         // the TTL manager's tick (active expiry on every shard) may fall between any two commands: it removes what
         // has expired and nothing else, so the model has no step for it
-        if gen.rng.gen_range(0..6) == 0 {
+        let ticked = gen.rng.gen_range(0..6) == 0;
+        if ticked {
             let _ = st.evict_expired_all_shards().await;
         }
         let (r, path) = exec_mixed(&st, &c, &argv, &mut gen.rng).await;
         let ro = parse_argv(&argv).map(|cmd| cmd.is_read_only()).unwrap_or(false);
         let s = project(&st, now).await;
-        log.push(json!({"a": "cmd", "run": run, "now": now, "c": c, "path": path, "ro": ro, "r": rv_json(&r), "s": s,
+        log.push(json!({"a": "cmd", "run": run, "now": now, "c": c, "path": path, "ro": ro, "r": rv_json(&r), "s": s, "ticked": ticked,
                         "argv": argv.iter().map(|a| String::from_utf8_lossy(a).to_string()).collect::<Vec<_>>()}));
         steps += 1;
     }
+}
+
+/// C03 read literally: the same command sequence on a one-shard server and on an N-shard twin - modelled commands and
+/// commands outside the model alike (server settings, stubs, scripts, malformed argument lists) - every reply compared (sorted
+/// where the reply is an unordered collection), and the keyspaces at the end.  Left out: commands whose answer is free
+/// (SPOP, SRANDMEMBER, RANDOMKEY, the SCAN family, TIME, OBJECT, DEBUG, WAIT) and the two-key commands of the listed finding.
+async fn run_twin(run: usize, shards: usize, gen: &mut Gen, len: usize, log: &mut Vec<Value>) {
+    let c1 = HarnessTime(Arc::new(Mutex::new(1000)));
+    let cn = HarnessTime(Arc::new(Mutex::new(1000)));
+    let one: State = ShardedActorState::with_config_and_time_source(ShardConfig::with_shards(1), c1.clone());
+    let many: State = ShardedActorState::with_config_and_time_source(ShardConfig::with_shards(shards), cn.clone());
+    let mut now: u64 = 0;
+    log.push(json!({"a": "reset", "run": run, "shards": shards}));
+    fn canon(r: &RespValue, unordered: bool, pairs: bool) -> String {
+        match r {
+            RespValue::Array(Some(items)) if unordered => {
+                let mut v: Vec<String> = if pairs { items.chunks(2).map(|c| c.iter().map(|x| format!("{x:?}")).collect::<Vec<_>>().join("=")).collect() } else { items.iter().map(|x| format!("{x:?}")).collect() };
+                v.sort();
+                format!("[{}]", v.join(","))
+            }
+            // error replies are compared by their first word (the class), as everywhere
+            RespValue::Error(e) => format!("error:{}", e.split_whitespace().next().unwrap_or("")),
+            o => format!("{o:?}"),
+        }
+    }
+    let mut steps = 0;
+    while steps < len {
+        match gen.rng.gen_range(0..10) {
+            0..=5 => {}
+            6 => now += gen.rng.gen_range(1..2500),
+            7 => now += 1,
+            _ => now += 100_000,
+        }
+        let (_, argv) = if gen.rng.gen_range(0..10) < 4 { gen.other_command() } else { gen.command() };
+        let name = String::from_utf8_lossy(&argv[0]).to_uppercase();
+        let numkeys_two = name == "EVAL" && argv.get(2).map(|n| n.as_slice() != b"0" && n.as_slice() != b"1").unwrap_or(false);
+        let sort_store = name == "SORT" && argv.iter().any(|a| a.eq_ignore_ascii_case(b"STORE"));
+        if matches!(name.as_str(), "SPOP" | "SRANDMEMBER" | "RANDOMKEY" | "SCAN" | "HSCAN" | "SSCAN" | "ZSCAN" | "TIME" | "OBJECT" | "DEBUG" | "WAIT" | "INFO"
+                    | "RENAME" | "RENAMENX" | "LMOVE" | "RPOPLPUSH" | "MSETNX" | "SMOVE" | "MULTI" | "EXEC" | "DISCARD" | "WATCH") || numkeys_two || sort_store {
+            continue;
+        }
+        *c1.0.lock().unwrap() = 1000 + now;
+        *cn.0.lock().unwrap() = 1000 + now;
+        if gen.rng.gen_range(0..6) == 0 {
+            let _ = one.evict_expired_all_shards().await;
+            let _ = many.evict_expired_all_shards().await;
+        }
+        let unordered = matches!(name.as_str(), "KEYS" | "SMEMBERS" | "HKEYS" | "HVALS" | "HGETALL" | "SUNION" | "SINTER" | "SDIFF");
+        let r1 = exec(&one, &argv).await;
+        let rn = exec(&many, &argv).await;
+        log.push(json!({"a": "twin", "run": run, "shards": shards, "now": now,
+                        "argv": argv.iter().map(|a| String::from_utf8_lossy(a).to_string()).collect::<Vec<_>>(),
+                        "r1": canon(&r1, unordered, name == "HGETALL"), "rn": canon(&rn, unordered, name == "HGETALL")}));
+        steps += 1;
+    }
+    let s1 = project(&one, now).await;
+    let sn = project(&many, now).await;
+    log.push(json!({"a": "twinend", "run": run, "shards": shards, "s1": s1, "sn": sn}));
 }
 
 /// Many shards (beyond any machine word of bits), a few dozen keys spread over them, and commands that name
@@ -282,6 +341,19 @@ pub fn main(args: &[String]) -> i32 {
                 }
                 if let Err(p) = r {
                     out.emit(&json!({"a": "cmd", "run": i + 1, "now": 0, "c": {"op": "OTHER"}, "argv": [], "ro": false, "panic": p, "r": {"t": "error", "b": [80], "a": []}, "s": []}));
+                }
+            }
+        }
+        Some("twin") => {
+            let mut gen = Gen::new(a.u64("seed", 1), true);
+            for i in 0..a.usize("n", 50) {
+                let mut log = Vec::new();
+                let r = catch(|| rt.block_on(run_twin(i + 1, shards, &mut gen, a.usize("len", 30), &mut log)));
+                for ev in &log {
+                    out.emit(ev);
+                }
+                if let Err(p) = r {
+                    out.emit(&json!({"a": "twin", "run": i + 1, "shards": shards, "argv": [], "r1": "", "rn": format!("panic: {p}")}));
                 }
             }
         }
